@@ -418,7 +418,10 @@ struct SRunner {
         if (op.kind == S_BOUNDS && t.flavour != SF_FLAT) return false;
         if (op.kind == S_FIND_HETERO && !t.transparent) return false;
         io.key = pick_key();
-        if (op.kind == S_FIND_HETERO && ((op.n >> 9) & 1)) io.probeWidth = 1 + (op.n >> 11) % 4;  // a coarse probe (several equivalent elements)
+        if (op.kind == S_FIND_HETERO && ((op.n >> 9) & 1)) {
+          io.probeWidth = 1 + (op.n >> 11) % 4;  // a coarse probe (several equivalent elements)
+          if (((op.n >> 14) & 7) == 0) io.probeWidth = 1 + (op.n >> 17) % (plan.keyDom < 96 ? plan.keyDom : 96);  // ... sometimes equivalent to a large part of the set
+        }
         return true;
       case S_MERGE: case S_MERGE2: {
         if (!w) return false;
@@ -960,9 +963,11 @@ struct SRunner {
         if ((res.bits & 1u) != (m.empty() ? 1u : 0u) || !(res.bits & 2) || !(res.bits & 4) || res.count != (long)m.size()) { viol(VK_MODEL, base, "empty()/size()/cbegin()/cend() inconsistent"); return; }
         if (s.type->flavour == SF_SMALL) {
           // postfix-increment walk, decrement walk from end(), postfix walk of the reverse iterators
-          std::vector<Val> want = preFwd;
-          want.insert(want.end(), preFwd.rbegin(), preFwd.rend());
-          want.insert(want.end(), preFwd.rbegin(), preFwd.rend());
+          std::vector<Val> want = preFwd;                                  // it++ from begin()
+          want.insert(want.end(), preFwd.rbegin(), preFwd.rend());         // --it from end()
+          want.insert(want.end(), preFwd.rbegin(), preFwd.rend());         // it-- from end()
+          want.insert(want.end(), preFwd.begin(), preFwd.end());           // rit-- from rend()
+          want.insert(want.end(), preFwd.rbegin(), preFwd.rend());         // rit++ from rbegin()
           if (preFwd.size() == m.size() && res.reads != want) { viol(VK_ITER, P(11), "walking with postfix ++ / -- from end() / postfix ++ on reverse iterators does not visit the elements as prefix ++ does"); return; }
         }
         if (s.type->flavour == SF_FLAT && !m.empty()) {
